@@ -366,6 +366,23 @@ proof fn vac__holding_cell_add_is_kept(cltv_expiry: &u32, height: u32)
     requires height <= 0x7fff_ffff,
     ensures false
 {}
+// ---- ... and every successful exit of do_best_block_updated hands those timed-out HTLCs back to be failed upstream (three deep R15 slices: the second component of each Ok tuple) ----
+pub struct TimedOutHTLC { pub id: u64 }
+fn handed_back_with_channel_ready(timed_out_htlcs: Vec<TimedOutHTLC>) -> (r: Vec<TimedOutHTLC>)
+    ensures
+    r@ == timed_out_htlcs@,
+ { timed_out_htlcs }
+
+fn handed_back_with_splice_locked(timed_out_htlcs: Vec<TimedOutHTLC>) -> (r: Vec<TimedOutHTLC>)
+    ensures
+    r@ == timed_out_htlcs@,
+ { Vec::new() }
+
+fn handed_back_otherwise(timed_out_htlcs: Vec<TimedOutHTLC>) -> (r: Vec<TimedOutHTLC>)
+    ensures
+    r@ == timed_out_htlcs@,
+ { timed_out_htlcs }
+
 // (P, C08) with the heights above, the forwarding race of lemma_forward_race is the one the monitor really runs:
 // downstream silent => on chain at outgoing + LATENCY; upstream claimable (preimage known) => on chain from incoming - CLTV_CLAIM_BUFFER
 pub proof fn lemma_on_chain_heights_close_the_race(incoming: int, outgoing: int, delta: int)
